@@ -126,6 +126,10 @@ def check_case(case, ctx):
                 if kid.public_key.sec() != rk.sec() or kid.index != case["bulk"][0] + j:
                     raise Violation("C14/public/bulk-children", "%s: generate_children gave child %d with index %r"
                                     % (tag, j, kid.index))
+        st_, kids = call(WO.master.generate_children, (H - 2, H + 2))
+        if st_ == "ok":
+            raise Violation("C14/private/hardened-derived", "%s: generate_children((2^31-2, 2^31+2)) returned %d nodes incl. "
+                            "hardened ones" % (tag, len(kids)))
         for sub, rsub in zip(case["subs"], ref_subs):
             what = "%s sub-path %s" % (tag, R.fmt_path(sub, "M"))
             st_, n_wo = call(WO.master.derive_path, list(sub))
@@ -213,6 +217,12 @@ def classes_case(case):
             "paper" if case["paper"] else "base", "subs=%d" % len(case["subs"])]
 
 
+def enum_deep(tier):
+    for d, testnet in ((128, False), (200, True), (255 - 4, False)):
+        yield {"seed": bytes([d]) * 16, "testnet": testnet, "paper": bool(d & 1),
+               "export": [H + 44, H, 7] + [1] * (d - 3), "subs": [[0], [2, 1]], "bulk": None}
+
+
 def clauses():
     return [
         Clause("watch-only", check_case,
@@ -221,6 +231,7 @@ def clauses():
                "full wallet; private requests raise or give None (node_extended_private_key, node_extended_keys, group "
                "rows, node attributes, hardened ckd/by_path, generate); object-graph scan for private scalars/strings; "
                "non-trivial = export depth >= 1 or a non-empty sub-path",
-               gen=gen_case, nontrivial=nt_case, classes=classes_case,
+               gen=gen_case, enum=enum_deep, enum_desc="export nodes at depth 128, 200, 251",
+               nontrivial=nt_case, classes=classes_case,
                n={"quick": 600, "thorough": 12000}, shards={"quick": 16, "thorough": 16}),
     ]
